@@ -205,6 +205,9 @@ type Property struct {
 	TimeoutS func(tier string) int
 }
 
+// ExtraNotes lets the workload packages hand setup failures to the reporter (set by props).
+var ExtraNotes func() []string
+
 var registry = map[string]*Property{}
 
 func Register(p *Property)    { registry[p.ID] = p }
@@ -235,6 +238,12 @@ func RunWorker(prop, tier string, seed int64, batch, batches int, race bool) int
 	rep := NewReporter(prop)
 	c := &Ctx{Prop: prop, Tier: tier, Seed: seed, Batch: batch, Batches: batches, Race: race, R: rep}
 	p.Run(c)
+	if ExtraNotes != nil {
+		for _, n := range ExtraNotes() {
+			rep.Cover("harness/setup-failures")
+			rep.Note("setup step failed: " + n)
+		}
+	}
 	res := workerResult{Evals: rep.Evals, Cov: rep.Cov, Samples: rep.Samples, Violations: rep.Violations, Notes: rep.Notes, Done: true}
 	for h := range rep.distinct {
 		res.Distinct = append(res.Distinct, h)
@@ -408,6 +417,17 @@ func RunCheck(prop, tier string, seed int64, self, selfRace string, onlyBatch in
 				inconclusive = append(inconclusive, fmt.Sprintf("coverage floor not met: %s = %d < %d", k, got, floor))
 			}
 		}
+	}
+
+	if n := agg.Cov["harness/setup-failures"]; n > 0 {
+		first := ""
+		for _, x := range agg.Notes {
+			if strings.HasPrefix(x, "setup step failed") {
+				first = x
+				break
+			}
+		}
+		inconclusive = append(inconclusive, fmt.Sprintf("%d workload setup step(s) did not succeed (%s)", n, first))
 	}
 
 	// known findings
